@@ -147,8 +147,12 @@ def ext_create_masker(ex, state, args, kwargs, sv):
 
 
 def ext_pmce_decompress(ex, state, args, kwargs, sv):
+    """decompress_message_data(data): some octets (arbitrary: whatever the codec inflates them to), or the codec's
+    exception for a damaged stream; what was returned is remembered (ghost.last_inflated)"""
     t = z3.Const(fresh_name("decompressed"), BytesSort)
     ex.raise_if(state, z3.Bool(fresh_name("decompress_raises")), "Exception", )
+    state.assume(z3.Length(t) < 2 ** 62)
+    _ghost(state).fields["last_inflated"] = VBytes(t)
     return VBytes(t)
 
 
@@ -307,7 +311,7 @@ def build_shapes(reg):
         "cur_binary": "bool", "wellformed": "bool",
         # RSV bits per message (the first frame's; continuation frames must carry none) and the compressor's view
         "cur_rsv": "int", "sent_rsv": "list:int", "sent_rsv1_msgs": "nat", "comp_hist": "int", "comp_in": "bytes",
-        "comp_open": "bool", "n_absorbed": "nat", "rsv1_base": "nat",
+        "comp_open": "bool", "n_absorbed": "nat", "rsv1_base": "nat", "last_inflated": "bytes",
     }, ghost=True)
     # the UTF-8 validator: contracts proved in C09, used here as assumed callee contracts
     from . import c09
